@@ -25,3 +25,11 @@ def categoric_rows(v, x, spans_intercept, rows):
     train = v.value
     new = v.eval_new_data_categoric(take_rows(x, rows))
     return train, new
+
+
+def bspline_rows(t, x, rows, df, knots, degree, intercept, lower_bound, upper_bound):
+    """A B-spline basis fitted on x (any valid parameters) and then applied to any selection of rows of x: the same basis values
+    (knots and boundary knots are not re-estimated from the selection)."""
+    train = t(x, df, knots, degree, intercept, lower_bound, upper_bound)
+    new = t(x[rows])
+    return train, new
